@@ -84,7 +84,12 @@ def gen_case(rng, k):
     ps += [0.0, 1.0] + [rng.randint(0, 256) / 256.0 for _ in range(3)] + [rng.randint(0, 2 ** 30) / 2.0 ** 30]
     ps = np.array(sorted(set(ps)), dtype=float)
     if dtype == "float32":
-        x, y2, vals = x.astype(np.float32), y2.astype(np.float32), vals.astype(np.float32)
+        if x.min() == x.max() and scale > 1:
+            # a constant float32 sample of magnitude >= 2^24: np.histogram cannot widen the range by +-0.5 in float32 and
+            # raises ValueError inside ecdf(kernel_density) (a variant of the known finding F15) -> keep such samples float64
+            dtype = "float64"
+        else:
+            x, y2, vals = x.astype(np.float32), y2.astype(np.float32), vals.astype(np.float32)
     return dict(k=k, scale=scale, kind_x=kx, x=x, y=y, y2=y2, vals=vals, ps=ps, dtype=dtype)
 
 
@@ -130,6 +135,17 @@ def quiet(f, *a, **kw):
     with warnings.catch_warnings(), np.errstate(all="ignore"):
         warnings.simplefilter("ignore")
         return np.asarray(f(*a, **kw), dtype=float)
+
+
+def raw(f, *a, **kw):
+    """the result as the function returns it (dtype preserved)"""
+    with warnings.catch_warnings(), np.errstate(all="ignore"):
+        warnings.simplefilter("ignore")
+        return np.asarray(f(*a, **kw))
+
+
+EXACT_BITWISE_PAIRS = [("step_function", "inverted_cdf"), ("step_function", "closest_observation"), ("linear_interpolation", "averaged_inverted_cdf")]
+DISCRETE_IM = ["inverted_cdf", "closest_observation"]  # return sample values, never interpolate
 
 
 # ------------------------------------------------------------------ correspondence (tier B)
@@ -236,7 +252,9 @@ def correspondence(c, corr):
     d = "0" if em == "step_function" else dv
     corr.add(f"qmap3 {em} {im} {R(x)} {R(y)} {R(x)} {d} {dp}", "triple",
              real(M.quantile_map_x_on_y_non_parametically, x, y, "normal", em, im), sy, f"{tag} qmap_x_on_y normal {em} {im}")
-    corr.add(f"qmapisimip {R(x)} {R(y)}", "plain", real(M.quantile_map_x_on_y_non_parametically, x, y, "isimipv3.0"), sy, f"{tag} qmap_x_on_y isimipv3.0")
+    # scipy.stats.rankdata returns float32 ranks for float32 input: the probabilities then carry single precision
+    sy_isimip = sy * 1e3 if x.dtype == np.float32 else sy
+    corr.add(f"qmapisimip {R(x)} {R(y)}", "plain", real(M.quantile_map_x_on_y_non_parametically, x, y, "isimipv3.0"), sy_isimip, f"{tag} qmap_x_on_y isimipv3.0")
     # sort_array_like_another_one (rank based: exact comparison only for a tie-free reference)
     if np.unique(y2).size == y2.size:
         corr.add(f"sortlike {R(x)} {R(y2)}", "exact", real(U.sort_array_like_another_one, x, y2), 0.0, f"{tag} sort_array_like_another_one")
@@ -301,19 +319,28 @@ def oracle(c, problems, stats):
     tolq = 1e-9 * (1 + float(np.abs(y).max()) + float(np.abs(vals).max()))
     for em in EM:
         for im in IM:
-            q = quiet(M.quantile_map_non_parametically, x, y, sv, em, im)
+            q_raw = raw(M.quantile_map_non_parametically, x, y, sv, em, im)
+            qx_raw = raw(M.quantile_map_non_parametically_with_constant_extrapolation, x, y, sv.copy(), em, im)
+            dsig = {"method": em, "iecdf": im, "input_dtype": str(x.dtype)}
+            if q_raw.dtype != y.dtype or qx_raw.dtype != y.dtype:
+                bad(f"quantile map ({em},{im}) of {x.dtype} values onto a {y.dtype} target returns dtype {q_raw.dtype} / with extrapolation {qx_raw.dtype}: "
+                    f"the result does not carry the target's precision", {**dsig, "law": "result_dtype"}, function="qmap/qmapx", pair=[em, im])
+            q = q_raw.astype(float)
+            if im in DISCRETE_IM and not np.all(np.isin(q, y)):
+                bad(f"quantile_map_non_parametically({em},{im}) returns {q[~np.isin(q, y)][:3].tolist()}, not values of the target sample", {**dsig, "law": "qmap_values_of_target"},
+                    function="qmap", pair=[em, im])
             if np.any(np.diff(q) < -tolq):
                 bad(f"quantile_map_non_parametically({em},{im}) not monotone", {"method": em, "iecdf": im, "law": "qmap_monotone"}, function="qmap", pair=[em, im])
             if np.any(q < ymin - tolq) or np.any(q > ymax + tolq):
                 bad(f"quantile_map_non_parametically({em},{im}) leaves [min y, max y]", {"method": em, "iecdf": im, "law": "qmap_range"}, function="qmap", pair=[em, im])
-            qx = quiet(M.quantile_map_non_parametically_with_constant_extrapolation, x, y, sv.copy(), em, im)
+            qx = qx_raw.astype(float)
             above, below = sv > xmax, sv < xmin
             inside = ~above & ~below
             if np.any(qx[above] != sv[above] + (ymax - xmax)) or np.any(qx[below] != sv[below] + (ymin - xmin)):
                 bad(f"constant extrapolation ({em},{im}): outside [min x, max x] the result is not value + (min y - min x) / (max y - max x)",
                     {"method": em, "iecdf": im, "law": "extrapolation_shift"}, function="qmapx", pair=[em, im])
-            if np.any(np.abs(qx[inside] - q[inside]) > tolq):
-                bad(f"constant extrapolation ({em},{im}) changes values inside the source range", {"method": em, "iecdf": im, "law": "extrapolation_inside"}, function="qmapx", pair=[em, im])
+            if np.any(qx[inside] != q[inside]):
+                bad(f"constant extrapolation ({em},{im}) changes values inside the source range: {qx[inside][qx[inside] != q[inside]][:3].tolist()} vs {q[inside][qx[inside] != q[inside]][:3].tolist()}", {"method": em, "iecdf": im, "law": "extrapolation_inside"}, function="qmapx", pair=[em, im])
             if np.any(np.diff(qx) < -tolq):
                 bad(f"constant extrapolation ({em},{im}) not monotone", {"method": em, "iecdf": im, "law": "extrapolation_monotone"}, function="qmapx", pair=[em, im])
             if nx >= 2 and ny >= 2 and not (em == "kernel_density" and xmin == xmax):
@@ -327,8 +354,16 @@ def oracle(c, problems, stats):
         want = quiet(U.sort_array_like_another_one, y, x)
         for em, im in EXACT_PAIRS:
             out = quiet(M.quantile_map_x_on_y_non_parametically, x, y, "normal", em, im)
+            outx = quiet(M.quantile_map_non_parametically_with_constant_extrapolation, x, y, x.copy(), em, im)
             stats["equal_size_checks"] += 1
-            if np.all(np.abs(out - want) <= tolq):
+            if (em, im) in EXACT_BITWISE_PAIRS:  # no interpolation arithmetic involved: exactly the target's values
+                stats["equal_size_bitwise_checks"] += 1
+                if not np.array_equal(out, want) or not np.array_equal(outx, want):
+                    bad(f"mapping a tie-free {x.dtype} sample onto an equally sized target with ({em},{im}) does not reproduce the target's values exactly: "
+                        f"max deviation {float(np.max(np.abs(out - want))):.3g} (plain), {float(np.max(np.abs(outx - want))):.3g} (with extrapolation)",
+                        {"method": em, "iecdf": im, "law": "equal_sizes_exact", "input_dtype": str(x.dtype)}, function="quantile_map_x_on_y_non_parametically", pair=[em, im])
+                continue
+            if np.all(np.abs(out - want) <= tolq) and np.all(np.abs(outx - want) <= tolq):
                 continue
             if (em, im) in FLOAT_FRAGILE_PAIRS:
                 # accept the neighbouring order statistic (float floor at an integer) and count it
@@ -370,7 +405,7 @@ def run(tier, res, force_search=False):
 
     rng = random.Random(C.seed() * 104729 + 16)
     res.rule = ("cases = (x, y, y2, evaluation points, probabilities) from one PRNG (VERIF_SEED): sizes 1..12, values k/64 with ties / tie-free / constant, "
-                "scaled exactly by 1, 2^40 or 2^-40; every case runs all 3 ecdf x 9 iecdf methods; non-trivial = sample has >= 2 distinct values; "
+                "scaled exactly by 1, 2^40 or 2^-40; source sample and values as float64 (60%), float32 (20%) or integer-valued int64 (20%), target always float64; every case runs all 3 ecdf x 9 iecdf methods; non-trivial = sample has >= 2 distinct values; "
                 "distinct = distinct (size x, size y, kind, scale, ties in x, ties in y) classes")
     res.trusted = C.BASE_TRUSTED + [
         "numpy's np.sort/argsort/quantile/interp/linspace/histogram, statsmodels' ECDF, scipy's rv_histogram/rankdata are modelled (Model/Stats.lean), not verified; "
@@ -379,7 +414,7 @@ def run(tier, res, force_search=False):
         "first edge <= min x) are re-checked on numpy's actual bins on every run",
         "float rounding is not modelled; at discontinuities of the exact map (floor / discrete virtual index at an integer, np.interp at a tied computed knot) either neighbour is accepted and counted (ties_accepted)",
     ]
-    res.assumptions = ["samples are finite floats; probabilities lie in [0,1]", "sample size >= 2 for the distribution-function laws (size 1 is stated separately: Props.C16.ecdf_size_one_*, iecdf_size_one)",
+    res.assumptions = ["samples are finite floats; probabilities lie in [0,1]", "the target sample y is float64 (source / values may be float32 or int64)", "sample size >= 2 for the distribution-function laws (size 1 is stated separately: Props.C16.ecdf_size_one_*, iecdf_size_one)",
                        "tie-free source for the equal-size reproduction law; tie-free reference for the exact comparison of sort_array_like_another_one"]
 
     lean_ok = C.lean_phase(res, PROP, GEN, TARGETS)
@@ -394,7 +429,7 @@ def run(tier, res, force_search=False):
         c = gen_case(rng, k)
         cases.append(c)
         x, y = c["x"], c["y"]
-        res.count((x.size, y.size, c["kind_x"], c["scale"], np.unique(x).size < x.size, np.unique(y).size < y.size),
+        res.count((x.size, y.size, c["kind_x"], c["scale"], c["dtype"], np.unique(x).size < x.size, np.unique(y).size < y.size),
                   np.unique(x).size >= 2, sample={"x": x.tolist()[:6], "y": y.tolist()[:6], "scale": c["scale"], "n_vals": int(c["vals"].size), "n_ps": int(c["ps"].size)})
         correspondence(c, corr)
         oracle(c, problems, stats)
@@ -408,7 +443,7 @@ def run(tier, res, force_search=False):
         n_oracle_extra *= 3
     for k in range(n_oracle_extra):
         c = gen_case(rng, n_cases + k)
-        res.count((c["x"].size, c["y"].size, c["kind_x"], c["scale"], np.unique(c["x"]).size < c["x"].size, np.unique(c["y"]).size < c["y"].size),
+        res.count((c["x"].size, c["y"].size, c["kind_x"], c["scale"], c["dtype"], np.unique(c["x"]).size < c["x"].size, np.unique(c["y"]).size < c["y"].size),
                   np.unique(c["x"]).size >= 2)
         oracle(c, problems, stats)
     res.extra["oracle_stats"] = dict(stats)
@@ -422,7 +457,8 @@ def run(tier, res, force_search=False):
             continue
         seen.add(key)
         res.violations.append((desc, {"property": PROP, "failing_input": case, "signature": sig}))
-    if res.tie_broken and not problems:
+    unknown = [v for v in res.violations if C.match_known(PROP, v[1]) is None]
+    if res.tie_broken and not unknown:
         res.violations.append(("proof obligation / correspondence no longer checks: " + "; ".join(res.tie_broken)[:600],
                                {"property": PROP, "failing_input": None, "broken": res.tie_broken, "mismatches": corr.mismatches[:5]}))
     return res
@@ -436,7 +472,9 @@ def replay(data):
     if not fi:
         print("replay without failing input:", data.get("broken"))
         return 1
-    c = dict(k=0, scale=fi["scale"], kind_x="replay", x=np.array(fi["x"]), y=np.array(fi["y"]), y2=np.array(fi["y2"]), vals=np.array(fi["vals"]), ps=np.array(fi["ps"]))
+    dt = np.dtype(fi.get("dtype", "float64"))
+    c = dict(k=0, scale=fi["scale"], kind_x="replay", dtype=str(dt), x=np.array(fi["x"], dtype=dt), y=np.array(fi["y"], dtype=float), y2=np.array(fi["y2"], dtype=dt),
+             vals=np.array(fi["vals"], dtype=dt), ps=np.array(fi["ps"], dtype=float))
     problems = []
     oracle(c, problems, collections.Counter())
     want = data.get("signature", {})
